@@ -50,6 +50,16 @@ CLAIMED = {
   text='Decides structural clauses: terminator-once for all four terminators and funcinst after a terminator; for 16 shapes of nested ?:/&&/|| (incl. arms ending in a no-return call) every phi source is a real predecessor and no jump targets an unplaced block; string data items emit exactly size bytes (units + zero fill) for all width/length/size combinations without reading outside the literal; no bookkeeping field is write-only (label definedness); diagnostics only on stderr and IL only on stdout; status 0 only behind fflush + terminal ferror. Class agreement and def-before-use of temporaries in arbitrary functions are NOT decided.',
   note='Trusts clang 14 front end, lib/eai.py, the array/alloc models in props/c03.py. One known finding (phi after a no-return arm of ?:).',
   design='5/C03'),
+ 'C15': dict(
+  technique='explicit-state exploration: tree.c (treeinsert/balance/rot) and qbe.c:switchcase/casesearch are interpreted abstractly for every insertion order of up to 6 (quick) / 7 (thorough) case constants; the emitted compare ladder is simulated for every probe class; keys are only compared, so an order type stands for all key sets (checked on the AST)',
+  text='Decides exhaustively for all insertion orders of n <= 6/7 keys: search-tree order, AVL balance and stored heights, presence of every key, duplicate detection; that the emitted ladder sends each key to its case body and every gap/outside value to the default, with compare opcodes of the controlling type class and at most height-many equality tests; the label() diagnostics; no per-switch state shared across recursion. Logarithmic depth for thousands of cases follows from the AVL invariant only inductively - larger trees are NOT explored; agreement of 64-bit key order with 32-bit unsigned compares relies on sign-extended keys (assumption).',
+  note='Trusts clang 14 front end, lib/eai.py (incl. the first-member view of struct switchcase), models in props/c15.py.',
+  design='5/C15'),
+ 'C16': dict(
+  technique='explicit-state exploration of map.c (mapinit/mapput/mapget/keyindex/keyequal interpreted abstractly, hash values engineered to collide at every table size) over bounded insertion histories; E-AI tables for hash, stringdecl, scope chain and tagspec; AST who-accesses-which-table rule',
+  text='Decides: for all 4^5 (quick) / 5^6 (thorough) hash assignments of an insertion history starting at capacity 4, every key stays retrievable with its own value across growth and absent keys stay absent, with len/cap bookkeeping intact; hash() reads exactly the key bytes; string-pool keys cover all bytes of the literal; tags and ordinary identifiers use separate tables; scope-chain lookups stop at the innermost hit; the 17-row tag shadowing table of tagspec. Histories of 10^5 operations and prototype-scope handling in declarators are NOT decided.',
+  note='Trusts clang 14 front end, lib/eai.py, the table-allocation and scripted-token models in props/c16.py. Capacity 2 is excluded: the growth rule leaves no free slot there, but no call site uses it (rule C16.b checks every mapinit constant).',
+  design='5/C16'),
  'C01': dict(
   technique='abstract interpretation (partial evaluation of the lowering functions over the static type/operator descriptor domain) + AST table extraction vs C11/QBE oracle tables',
   text='Decides structural clauses only: the instruction-selection, conversion, load/store, truthiness and bit-field shift tables that every compiled program is lowered through are extracted from the current source by an abstract interpreter and compared exhaustively (over the finite descriptor domain) with oracle tables written from C11 and the QBE manual; sibling switches are checked for exhaustiveness. Semantic equivalence of emitted IL for arbitrary programs is NOT decided.',
